@@ -48,7 +48,14 @@ Hints == CASE v.k = "int" -> <<"", "int64", "drop", "ptr">>
            [] v.k = "bool" -> <<"", "drop", "ptr">>
            [] OTHER -> <<"", "drop">>
 IdStr == ToString(<<ri, call.name, call.args>>)
-EmitCase == \A h \in 1..Len(Hints) :
+\* single-precision floats that no short decimal denotes exactly (0.1f, 1/3 as a float32, the largest below 1): whatever text
+\* they print as, a string filter sees that text - {{ x | append: "" }} renders as {{ x }} does (the harness compares)
+F32U == << Flt(13421773, 134217728), Flt(11184811, 33554432), Flt(16777215, 16777216), Flt(0 - 13421773, 134217728) >>
+X32(k, f) == [id |-> "f32-" \o ToString(k) \o "-" \o f, kind |-> "render", f |-> f,
+              prog |-> << [t |-> "obj", e |-> [t |-> "filter", e |-> [t |-> "var", name |-> S0], name |-> f, args |-> IF f = "append" THEN <<[t |-> "lit", v |-> Str(<<>>)]>> ELSE <<>>]] >>,
+              prog2 |-> << [t |-> "obj", e |-> [t |-> "var", name |-> S0]] >>, env |-> << <<S0, F32U[k]>> >>, repr |-> ("s" :> "float32")]
+EmitF32 == \A k \in 1..Len(F32U) : \A f \in {"append", "strip", "downcase"} : PrintT(ToJson(X32(k, f)))
+EmitCase == ((ri = 1 /\ call.name = "upcase") => EmitF32) /\ \A h \in 1..Len(Hints) :
   PrintT(ToJson([id |-> "sr" \o ToString(h) \o IdStr, kind |-> "render", f |-> call.name, prog |-> Prog, env |-> << <<S0, v>> >>]
                 @@ (IF Hints[h] = "" THEN <<>> ELSE [repr |-> ("s" :> Hints[h])])))
 =============================================================================
